@@ -278,7 +278,7 @@ def check_prov(ctx):
                         ctx.ok(R2, c, "`%s`" % A.unparse(c), "documented fall-back under `rng is None`")
                     else:
                         ctx.violate(R2, c, "`%s`" % A.unparse(c), "constructs a generator with provenance %s" % sorted(tags), key="fresh:%s:%s" % (q, canon(c)))
-    ctx.floor(R2, k, 3)
+    ctx.floor(R2, k, 2)
 
 
 def _under_none_guard(node):
@@ -609,7 +609,10 @@ def check_spawn(ctx):
     recv = flow.resolve(sp.func.value, at=A.enclosing_stmt(sp))
     root = _root_tags(recv, fn, None)
     ctx.check(R, sp, "spawn receiver derives from rng", root <= {"param"}, "spawn is called on `%s` (%s)" % (A.unparse(recv), sorted(root)), key="spawn-recv")
-    ctx.check(R, sp, "receiver is the generator's seed sequence", "seed_seq" in A.unparse(recv), "spawn receiver `%s` is not the bit generator's seed sequence" % A.unparse(recv), key="spawn-seedseq")
+    # two equivalent spellings: <rng>.bit_generator.seed_seq.spawn(n) yields seed sequences (each wrapped as Generator(BitGen(child))),
+    # Generator.spawn(n) yields the generators themselves
+    gen_spawn = isinstance(recv, ast.Name) and root <= {"param"} and recv.id in A.param_names(fn)
+    ctx.check(R, sp, "receiver is the generator or its seed sequence", gen_spawn or "seed_seq" in A.unparse(recv), "spawn receiver `%s` is neither the rng nor its bit generator's seed sequence" % A.unparse(recv), key="spawn-seedseq")
     att = _attachment(fn)
     if att is None:
         arg = sp.args[0] if sp.args else None
@@ -631,9 +634,9 @@ def check_spawn(ctx):
     while isinstance(inner, ast.Call) and len(inner.args) == 1 and not inner.keywords:
         chain.append((A.call_name(inner) or "").split(".")[-1])
         inner = inner.args[0]
-    shape_ok = chain[:1] in (["Generator"], ["default_rng"]) and len(chain) <= 2
+    shape_ok = (chain[:1] in (["Generator"], ["default_rng"]) and len(chain) <= 2) if not gen_spawn else chain == []
     if not shape_ok:
-        ctx.violate(R, s, "generator built from a spawned child", "task generator is `%s`, not Generator(BitGen(children[i]))" % A.unparse(gen), key="gen-shape")
+        ctx.violate(R, s, "generator built from a spawned child", "task generator is `%s`, not %s" % (A.unparse(gen), "the spawned generator itself" if gen_spawn else "Generator(BitGen(children[i]))"), key="gen-shape")
         return
     src, same_index, desc = child_of(inner)
     srcr = flow.resolve(src, at=A.enclosing_stmt(s) if not isinstance(s, ast.stmt) else s) if src is not None else None
